@@ -1,6 +1,7 @@
 import Driver.Proto
 import SimuVerif.Model.Remesh
 import SimuVerif.Model.Surface
+import SimuVerif.Model.RemeshChecks
 import SimuVerif.Gen.RemeshConsts
 /-
   Model driver for C01 / C11: replays mesh construction, node displacements, refinement passes,
@@ -93,7 +94,7 @@ def step (st : St) (line : String) : St × String :=
          | .ok (c', _) =>
            -- the new node is the one `add_node` hands out
            let enew := match c.freeNodes with | i :: _ => i | [] => c.nodes.size
-           ({ st with cell := some c' }, s!"ok {if Surface.splitGuardB (abs c) e.n1 e.n2 then absCheck (Surface.splitT (abs c) e.n1 e.n2 enew) (abs c') else "absbad"}")
+           ({ st with cell := some c' }, s!"ok {if Surface.splitGuardB (abs c) e.n1 e.n2 && chkSplitHyps c e then absCheck (Surface.splitT (abs c) e.n1 e.n2 enew) (abs c') else "absbad"}")
          | .error x => (st, s!"err {x.name}"))
     | _, _, _ => (st, "bad-op")
   | ["canmerge", a, b] =>
@@ -132,7 +133,7 @@ def step (st : St) (line : String) : St × String :=
            let chk := match t1, t2 with
              | some _, some _ =>
                let done := Surface.canon (abs c') != Surface.canon T
-               if done then (if Surface.swapGuardB T e.n1 e.n2 then absCheck (Surface.swapT T e.n1 e.n2) (abs c') else "absbad")
+               if done then (if chkSwapHyps c e then absCheck (Surface.swapT T e.n1 e.n2) (abs c') else "absbad")
                else "absok-noop"
              | _, _ => "absbad"
            ({ st with cell := some c' }, s!"ok {chk}")
